@@ -30,6 +30,7 @@ func (g *Gen) register() {
 	g.registerBase()
 	g.add("basket_create", g.genBasketCreate)
 	g.add("prefix_basket", g.genPrefixBasket)
+	g.add("basket_combo", g.genBasketCombo)
 	g.add("put", g.genPut)
 	g.add("take", g.genTake)
 	g.add("basket_fee", g.genBasketFee)
@@ -941,6 +942,16 @@ func (g *Gen) genUpdateSell() *eng.Tx {
 		default: // down
 			nq = g.amountUpTo(q)
 		}
+		if g.hostile() && g.chance(0.35) {
+			// one decimal place more than the credit type allows, on a quantity that is otherwise fine (a
+			// little above or below the current one): must be refused in either direction
+			d := big.NewRat(1234567, 10000000)
+			if g.chance(0.5) && q.Cmp(d) > 0 {
+				nq = ratToDec(new(big.Rat).Sub(q, d), 7)
+			} else if t != nil && t.Cmp(d) > 0 {
+				nq = ratToDec(new(big.Rat).Add(q, d), 7)
+			}
+		}
 		den := g.askDenom()
 		if mk := g.V.Markets[o.MarketId]; mk != nil && (keepDenom || g.chance(0.6)) {
 			den = mk.BankDenom
@@ -1237,6 +1248,20 @@ func (g *Gen) genFeeParams() *eng.Tx {
 	if g.chance(0.4) {
 		s = g.randomRate()
 	}
+	if g.chance(0.12) {
+		// one rate left unset ("": accepted, means no fee) while the other is a real rate
+		if g.chance(0.5) {
+			b = ""
+			if ref.MustDec(s) == nil || ref.MustDec(s).Sign() == 0 {
+				s = "0.05"
+			}
+		} else {
+			s = ""
+			if ref.MustDec(b) == nil || ref.MustDec(b).Sign() == 0 {
+				b = "0.05"
+			}
+		}
+	}
 	if g.hostile() && g.chance(0.3) {
 		b = []string{"-0.1", "abc", "1.5", " 0.02", "0.02 ", " ", "+0.02", ".02", "2E-2", "0.020"}[g.R.Intn(10)]
 		if g.chance(0.5) {
@@ -1336,7 +1361,7 @@ func (g *Gen) graphHash() *data.ContentHash_Graph {
 }
 
 func (g *Gen) rawHash() *data.ContentHash_Raw {
-	h := &data.ContentHash_Raw{Hash: g.contentBytes(), DigestAlgorithm: 1, FileExtension: []string{"csv", "json", "pdf", "txt", "bin", "jp2", "tar7z"}[g.R.Intn(7)]}
+	h := &data.ContentHash_Raw{Hash: g.contentBytes(), DigestAlgorithm: 1, FileExtension: []string{"csv", "json", "pdf", "txt", "bin", "jp2", "tar7z", "rdf"}[g.R.Intn(8)]}
 	if g.hostile() && g.chance(0.3) {
 		h.FileExtension = []string{"CSV", "x", "toolong7", "a.b"}[g.R.Intn(4)]
 	}
@@ -1384,6 +1409,81 @@ func (g *Gen) genDefineResolver() *eng.Tx {
 // issued first (it gets the rolled-back table key), then the original batch is issued again (same
 // denom, since the sequence was rolled back too, but another key), put into the basket and taken out.
 // The batch is made the oldest of the basket so that the Take really draws from it.
+// genBasketCombo: a basket is created and taken from in ONE transaction; the take fails (nobody holds its
+// tokens yet) and everything is reverted. Another basket is created next (it receives the rolled-back
+// table id), then the first name is created for real; credits of one batch go into both and the owner
+// takes from each — every take must draw on the basket it names.
+func (g *Gen) genBasketCombo() *eng.Tx {
+	if len(g.V.BasketList) >= g.P.MaxBaskets+10 {
+		return nil
+	}
+	// a holder with tradable credits in a class
+	var h *obs.Bal
+	var keys []obs.BalKey
+	for k := range g.V.Balances {
+		keys = append(keys, k)
+	}
+	sort.Slice(keys, func(i, j int) bool {
+		if keys[i].BatchKey != keys[j].BatchKey {
+			return keys[i].BatchKey < keys[j].BatchKey
+		}
+		return keys[i].Addr < keys[j].Addr
+	})
+	for _, k := range keys {
+		bal := g.V.Balances[k]
+		if bal.T != nil && bal.T.Cmp(big.NewRat(40, 1)) > 0 && bal.T.Cmp(big.NewRat(1000000000, 1)) < 0 && (h == nil || g.chance(0.2)) {
+			h = bal
+		}
+	}
+	if h == nil {
+		return nil
+	}
+	b := g.V.Batches[h.Row.BatchKey]
+	if b == nil {
+		return nil
+	}
+	pr := g.V.Projects[b.ProjectKey]
+	if pr == nil {
+		return nil
+	}
+	c := g.V.Classes[pr.ClassKey]
+	if c == nil {
+		return nil
+	}
+	owner := obs.Addr(h.Row.Address)
+	g.basketSeq++
+	n1, n2 := fmt.Sprintf("KA%d", g.basketSeq), fmt.Sprintf("KB%d", g.basketSeq)
+	d1, d2 := "eco.u"+c.CreditTypeAbbrev+"."+n1, "eco.u"+c.CreditTypeAbbrev+"."+n2
+	create := func(name string) *baskettypes.MsgCreate {
+		m := &baskettypes.MsgCreate{Curator: owner, Name: name, Description: "combo", DisableAutoRetire: true, CreditTypeAbbrev: c.CreditTypeAbbrev, AllowedClasses: []string{c.Id}}
+		if g.V.BasketFee != nil && g.V.BasketFee.Fee != nil {
+			if f := storedFee(g.V.BasketFee.Fee); f != nil {
+				m.Fee = sdk.Coins{*f}
+			}
+		}
+		return m
+	}
+	one := func(tag string, m func() sdk.Msg) func() *eng.Tx {
+		return func() *eng.Tx { return &eng.Tx{Msgs: []sdk.Msg{m()}, Tag: tag} }
+	}
+	put := func(d, amt string) func() sdk.Msg {
+		return func() sdk.Msg {
+			return &baskettypes.MsgPut{Owner: owner, BasketDenom: d, Credits: []*baskettypes.BasketCredit{{BatchDenom: b.Denom, Amount: amt}}}
+		}
+	}
+	take := func(d, amt string) func() sdk.Msg {
+		return func() sdk.Msg { return &baskettypes.MsgTake{Owner: owner, BasketDenom: d, Amount: amt, RetireOnTake: false} }
+	}
+	g.script = append(g.script,
+		one("basket_combo/other", func() sdk.Msg { return create(n2) }),
+		one("basket_combo/recreate", func() sdk.Msg { return create(n1) }),
+		one("basket_combo/put-other", put(d2, "10")),
+		one("basket_combo/put", put(d1, "6")),
+		one("basket_combo/take", take(d1, "4000000")),
+		one("basket_combo/take-other", take(d2, "3000000")))
+	return &eng.Tx{Msgs: []sdk.Msg{create(n1), &baskettypes.MsgTake{Owner: owner, BasketDenom: d1, Amount: "1000000", RetireOnTake: false}}, Tag: "basket_combo"}
+}
+
 func (g *Gen) genBatchCombo() *eng.Tx {
 	if len(g.V.BatchList) >= g.P.MaxBatches+20 || len(g.V.ProjectList) < 2 {
 		return nil
